@@ -151,7 +151,7 @@ class Prop:
             'every order; seeded random schedules with up to 5 groups of sizes 1..6; fed to TagBlockQueue directly '
             'and through IterMessages(tbq=…) and NMEAQueue(tbq=…); each run is compared with the Lean model and with '
             'the property (singletons immediately; each group once, complete, in arrival order, at its last '
-            'sentence); non-trivial = at least one multi-sentence group')
+            'sentence); non-trivial = at least one multi-sentence group ; sentences behind unparsable tag blocks as ungrouped singletons')
     assumptions = ['group ids are unique per group within a schedule; the first sentence of a group arrives before its others']
 
     def check_case(self, ctx, fe, case, tots, o):
